@@ -125,6 +125,25 @@ PROPS["C16"] = {
     },
 }
 
+PROPS["C05"] = {
+    "level": "fault_enumeration",
+    "exhaustive": True,
+    "cells": 291,
+    "rule": ("the complete matrix {server certificate: trusted+matching, trusted+wrong host, untrusted CA, expired} x {client --insecure on/off} x {client certificate: none, server's CA, foreign CA} x "
+             "{requireClientCert on/off} x carrier {TLS socket, HTTPS websocket, StartTLS over socket / websocket / UDP(KCP) / DNS} (288 cells) plus {equal, different, absent} UDP secrets is "
+             "enumerated by run index; per run the upstream is named by host name or IP literal (with a certificate naming exactly that) and delivery segmentation is sampled; non-trivial = the "
+             "cell's outcome matched the admit/reject table; distinct = schedule shapes"),
+    "probes": ["admitted_as_expected", "rejected_as_expected"],
+    "technique": "deterministic simulation: complete authentication matrix under simulated clock (certificate expiry) and network, admit/reject table from the property text, no-application-byte-on-reject oracle",
+    "level_text": ("Fault enumeration over the finite authentication matrix, each cell run in a whole-system world with real crypto/tls: admit iff (--insecure or chain+name+validity) and "
+                   "(no requirement or client certificate of the server's CA); UDP admits iff secrets equal. On reject no target may accept a connection or receive a byte; on admit a 64-byte exchange must complete."),
+    "level_note": "PKI generated deterministically at worker start for the simulated epoch 2000-01-01; 'expired' is produced by the simulated clock. The documented stdio+tls exception is not part of the matrix.",
+    "tiers": {
+        "quick": {"runs": 291 * 3, "chunk": 97, "shrink_s": 30},
+        "thorough": {"runs": 291 * 40, "chunk": 291, "shrink_s": 90},
+    },
+}
+
 PENDING = "check under construction in this round; see DESIGN.md section 5 for the planned simulation"
 NOT_APPLICABLE = [
     {"property_id": "C08", "reason": "pure function of one byte string (codec Encode/Decode): no schedule, clock, fault or second party for a simulator to control; see DESIGN.md section 6"},
